@@ -391,6 +391,147 @@ pub fn cond_sequences(rng: &mut Rng, exhaustive: usize, random: usize) -> Vec<St
     out
 }
 
+// ------------------------------------------------------------------------------------------ `defined` scan scenarios
+
+/// `<placement>;<definition>;..;<condition>`: a few macro definitions (in a header, in the entry file before the `#if`,
+/// or as API defines) and one `#if` condition that uses them together with `defined`
+pub fn gen_defscan(rng: &mut Rng) -> String {
+    const PLAIN: &[&str] = &["P", "Q", "R", "A", "F"];
+    let placement = match rng.below(20) {
+        0..=11 => "h",
+        12..=16 => "m",
+        _ => "a",
+    };
+    let nd = rng.below(5) as usize;
+    let mut macros: Vec<(String, Option<usize>)> = Vec::new();
+    let mut parts: Vec<String> = vec![placement.to_string()];
+    fn join(rng: &mut Rng, toks: &[String]) -> String {
+        let mut s = String::new();
+        for (i, t) in toks.iter().enumerate() {
+            if i > 0 {
+                let prev_word = toks[i - 1].chars().last().is_some_and(|c| c.is_alphanumeric() || c == '_');
+                let this_word = t.chars().next().is_some_and(|c| c.is_alphanumeric() || c == '_');
+                if (prev_word && this_word) || rng.chance(1, 2) {
+                    s.push(' ');
+                }
+            }
+            s.push_str(t);
+        }
+        s
+    }
+    for _ in 0..nd {
+        let (name, params): (&str, Vec<&str>) = match rng.below(8) {
+            0..=2 => (*rng.pick(&["A", "B", "C"]), vec![]),
+            3..=5 => (*rng.pick(&["F", "G", "H"]), vec!["x"]),
+            6 => (*rng.pick(&["F", "G", "H"]), vec!["x", "y"]),
+            _ => (*rng.pick(&["F", "H", "A"]), vec![]),
+        };
+        let is_fn = !params.is_empty() || (name != "A" && name != "B" && name != "C") || rng.chance(1, 6);
+        let mut body: Vec<String> = Vec::new();
+        let n = rng.below(5);
+        for _ in 0..n {
+            let p = if params.is_empty() { rng.pick(PLAIN).to_string() } else { rng.pick(&params).to_string() };
+            match rng.below(16) {
+                0..=2 => body.extend(["defined".to_string(), p]),
+                3 => body.extend(["(".to_string(), "defined".to_string(), p, ")".to_string()]),
+                4..=5 => body.extend(["defined".to_string(), "(".to_string(), p, ")".to_string()]),
+                6 => body.push(p),
+                7 => {
+                    if let Some((m, a)) = macros.get(rng.below(macros.len().max(1) as u64) as usize).cloned() {
+                        body.push(m);
+                        if let Some(k) = a {
+                            body.push("(".into());
+                            for j in 0..k {
+                                if j > 0 {
+                                    body.push(",".into());
+                                }
+                                body.push(p.clone());
+                            }
+                            body.push(")".into());
+                        }
+                    } else {
+                        body.push(name.to_string());
+                    }
+                }
+                8 => body.push(rng.pick(&["1", "0", "7"]).to_string()),
+                9 => body.push(rng.pick(&["&&", "||", "+", "!", "=="]).to_string()),
+                10 => body.push(rng.pick(&["(", ")", ","]).to_string()),
+                11 => body.push("defined".to_string()),
+                12 => body.push(name.to_string()),
+                13 if rng.chance(1, 3) => body.push("##".to_string()),
+                _ => body.push(rng.pick(PLAIN).to_string()),
+            }
+        }
+        let head = if is_fn { format!("{}({})", name, params.join(if rng.chance(1, 2) { ", " } else { "," })) } else { name.to_string() };
+        let b = join(rng, &body);
+        parts.push(if b.is_empty() { head } else { format!("{} {}", head, b) });
+        macros.retain(|m| m.0 != name);
+        macros.push((name.to_string(), if is_fn { Some(params.len()) } else { None }));
+    }
+    // the condition
+    let mut cond: Vec<String> = Vec::new();
+    let na = 1 + rng.below(4);
+    for k in 0..na {
+        if k > 0 {
+            cond.push(rng.pick(&["&&", "||", "==", "+", "<"]).to_string());
+        }
+        let p = rng.pick(PLAIN).to_string();
+        let call = |rng: &mut Rng, macros: &Vec<(String, Option<usize>)>, arg: &str| -> Vec<String> {
+            let fns: Vec<&(String, Option<usize>)> = macros.iter().filter(|m| m.1.is_some()).collect();
+            let (m, a) = if fns.is_empty() || rng.chance(1, 6) { ("F".to_string(), 1) } else { let f = fns[rng.below(fns.len() as u64) as usize]; (f.0.clone(), f.1.unwrap()) };
+            let mut v = vec![m, "(".to_string()];
+            for j in 0..a {
+                if j > 0 {
+                    v.push(",".into());
+                }
+                v.push(arg.to_string());
+            }
+            v.push(")".into());
+            match rng.below(12) {
+                0 => {
+                    v.pop();
+                }
+                1 => v.truncate(1),
+                2 => v.insert(v.len() - 1, ",".into()),
+                _ => {}
+            }
+            v
+        };
+        match rng.below(16) {
+            0..=1 => cond.extend(["defined".to_string(), p]),
+            2..=3 => cond.extend(["defined".to_string(), "(".to_string(), p, ")".to_string()]),
+            4..=8 => {
+                let c = call(rng, &macros, &p);
+                cond.extend(c);
+            }
+            9 => {
+                let arg = format!("defined {}", p);
+                let c = call(rng, &macros, &arg);
+                cond.extend(c);
+            }
+            10 => {
+                let inner = call(rng, &macros, &p).join("");
+                let c = call(rng, &macros, &inner);
+                cond.extend(c);
+            }
+            11 => {
+                let objs: Vec<&(String, Option<usize>)> = macros.iter().filter(|m| m.1.is_none()).collect();
+                cond.push(if objs.is_empty() { p } else { objs[rng.below(objs.len() as u64) as usize].0.clone() });
+            }
+            12 => cond.extend(["!".to_string(), "defined".to_string(), p]),
+            13 => cond.push(rng.pick(&["1", "0"]).to_string()),
+            14 => {
+                cond.push("defined".to_string());
+                let c = call(rng, &macros, &p);
+                cond.extend(c);
+            }
+            _ => cond.extend(["(".to_string(), "defined".to_string(), p, ")".to_string()]),
+        }
+    }
+    parts.push(join(rng, &cond));
+    parts.join(";")
+}
+
 // ------------------------------------------------------------------------------------------ plan
 
 fn pick_mode(rng: &mut Rng, names: &[String]) -> Mode {
